@@ -23,6 +23,40 @@ def id13_from_squawk(a, b, c, d):
     return v
 
 
+def clmul(a, b):
+    x = 0
+    while b:
+        if b & 1:
+            x ^= a
+        a <<= 1
+        b >>= 1
+    return x
+
+
+def crc_zero_frame(r, df):
+    """a frame of downlink format [df] whose data bits are a multiple of the generator 0x1FFF409, so that the CRC-24 of the
+    data is 000000: for DF11/17/18 the valid parity field is all zeros, for the address/parity formats the AP field IS the
+    address.  Returns (hex, nbits, address)"""
+    nb = 56 if df < 16 else 112
+    nd = nb - 24
+    for _ in range(100000):
+        q = r.getrandbits(r.randint(1, nd - 25)) | 1
+        pq = clmul(0x1FFF409, q)
+        L = pq.bit_length()
+        lz = 5 - df.bit_length() if df else r.randint(5, 8)      # leading zero bits of the DF pattern
+        if L + lz > nd:
+            continue
+        data = pq << (nd - lz - L)
+        if data >> (nd - 5) != df:
+            continue
+        icao = (data >> (nd - 32)) & 0xFFFFFF if df in (11, 17, 18) else r.getrandbits(24) | 1
+        if icao == 0:
+            continue
+        frame = (data << 24) | (0 if df in (11, 17, 18) else icao)
+        return "%0*X" % (nb // 4, frame), nb, icao
+    raise RuntimeError("no multiple found")
+
+
 def opts_str(d):
     if not d:
         return "-"
@@ -296,7 +330,16 @@ class Gen:
 
     def junk_line(self):
         r = self.r
-        k = r.randint(0, 10)
+        k = r.randint(0, 12)
+        if k == 11:
+            # an over-long line whose TAIL, after a typical buffer size, is by itself a well-formed frame
+            n = r.choice([1024, 4096, 8192, 16384, 32768, 65536, 65536, 131072])
+            fill = r.choice([b"A", b"0", b"z", b" ", b"7"])
+            return fill * n + r.choice([self.f_df17(), "%012X" % r.getrandbits(48) + self.f_df17(), self.f_short(5)]).encode()
+        if k == 12:
+            # what an integer parser would swallow: a sign or radix prefix in place of the first digit(s) of a frame
+            f = r.choice([self.f_short(0), self.f_short(4), self.f_short(5), self.f_df17()])
+            return (r.choice(["+", "-", "+0", "0x", "0X", " +"]) + f[1:]).encode()
         if k == 10:
             return self.text_line(r.choice([r.randint(0, 140), 15, 31, 62, 63, 64, 79, 127, 128, 255]), r.choice(["é", "€", "😀", "✈"]))
         if k == 0:
